@@ -51,3 +51,15 @@ claim('C01', 'CBMC one-step symbolic execution of the real eval_instruction (VM 
       'Solver-decided per (opcode, operand kinds): from any VM state of the engine shape the step performs no out-of-bounds/null/freed access, no division trap, keeps sp and pc in range, leaves valid tags and the stack unwinds cleanly, or raises an LPC error. Indices of strings/buffers/lvalues and all numeric operands range over all int64; array rvalue indexing uses concrete (size,index) pairs incl. 32-bit truncation values.',
       'Covered opcodes: index/rindex (rvalue and lvalue), ranges on strings and buffers, arithmetic/comparison/bit/unary operators; efuns, calls, control flow, mappings, multi-step interactions and values longer than 3 are not yet covered. unions compiled as structs (hooks keep punned members in sync).',
       'DESIGN.md 5/C01')
+claim('C04', 'CBMC: VM step engine with symbolic size limits (LIMIT oracle), real do_catch with both setjmp branches, real function-entry stack check on a case grid',
+      'Solver-decided: string/buffer/array results of + and += never exceed symbolic configured limits (else an error); a limit error (stack full / eval cost) raised inside catch is re-raised and never swallowed, contexts popped once; every dispatch of the engine ends in the uncatchable eval-cost error after the configured number of steps; function entry either raises the stack-overflow error or the frame fits.',
+      'rc.cpp (how limits are read) is C++ and not encoded; efuns that build values, mappings, and eval_cost <= 0 at start are outside; frame set-up uses an enumerated case grid (stack pointers must stay concrete).',
+      'DESIGN.md 5/C04')
+claim('C06', 'CBMC: REF oracle on the VM step engine, real shared-string counter step from any 16-bit value, real call_out sweep with argument arrays',
+      'Solver-decided: after a step and stack unwinding every buffer/array operand is back at the count of its other holders and single-holder values are freed exactly once (double free / use after free are CBMC failures); ref_string/free_string from any counter value incl. saturation free a string iff the last holder released it; pending call_outs release their argument array exactly once when fired or dropped and keep it while pending.',
+      'Whole-run leak freedom, statistics counters, mappings/classes/function pointers and programs are outside; operand arrays are typed static objects with a second holder.',
+      'DESIGN.md 5/C06')
+claim('C03', 'CBMC differential harnesses on the real code: code generator literal encoder -> interpreter, index opcodes vs a mathematical reference',
+      'Solver-decided for all int64 values: the literal the real write_long_number encodes is the value the real interpreter pushes; x[i] and x[<i] on strings and buffers return the referenced byte for in-range indices and raise an error for every out-of-range int64 index.',
+      'Only the literal and index parts of C03 are covered: op= vs op, loops, switch, folding, mappings and the compiler choice of opcodes are not; buffer element values are compared at index 0 only (CBMC struct-hack limitation).',
+      'DESIGN.md 5/C03')
